@@ -27,3 +27,191 @@ package scanner
 //@   nocover
 //@   modifies everything()
 //@   ensures result0 && result2 == ite(closeLevel >= 0, closeLevel + 1, closeLevel)
+
+// ---------------------------------------------------------------------------
+// C04: the scanner is total on every byte string
+// ---------------------------------------------------------------------------
+// The window [start, pos) always lies inside the input, so lit() and next()
+// never slice or index outside it; backup() is only used when `last` is a
+// position inside the window (i.e. after a next() with no emit/ignore in
+// between).  Every state function sends at most two tokens: the token channel
+// has capacity 2 and Scan only runs a state when the channel is empty, so a
+// send never blocks (Scan itself uses select and is outside the verifier's
+// subset; that half of the argument is stated, not proved).
+//@ macro scOK(l) = (l != nil && 0 <= l.start.Offset && l.start.Offset <= l.pos.Offset && l.pos.Offset <= len(l.input))
+//@ macro canBackup(l) = (l.start.Offset <= l.last.Offset && l.last.Offset <= l.pos.Offset)
+//@ macro sameWin(l) = (l.start == old(l.start) && l.input == old(l.input))
+
+//@ func functype:runePredicate
+//@   trusted
+//@   pure
+
+//@ func (*Scanner).lit
+//@   prop C04
+//@   arith int
+//@   requires scOK(l)
+//@   modifies nothing
+//@   ensures len(result0) == l.pos.Offset - l.start.Offset
+//@   ensures ghost(sent) == old(ghost(sent))
+
+//@ func (*Scanner).next
+//@   prop C04
+//@   arith int
+//@   requires scOK(l)
+//@   modifies l.pos, l.last
+//@   ensures scOK(l) && canBackup(l) && l.last == old(l.pos) && l.pos.Offset >= old(l.pos.Offset)
+//@   ensures result0 >= -1
+//@   ensures ghost(sent) == old(ghost(sent))
+
+//@ func (*Scanner).backup
+//@   prop C04
+//@   arith int
+//@   requires scOK(l) && canBackup(l)
+//@   modifies l.pos
+//@   ensures scOK(l) && canBackup(l) && l.pos == old(l.last)
+//@   ensures ghost(sent) == old(ghost(sent))
+
+//@ func (*Scanner).ignore
+//@   prop C04
+//@   arith int
+//@   requires scOK(l)
+//@   modifies l.start, l.last
+//@   ensures scOK(l) && l.start == l.pos
+//@   ensures ghost(sent) == old(ghost(sent))
+
+//@ func (*Scanner).peek
+//@   prop C04
+//@   arith int
+//@   requires scOK(l)
+//@   modifies l.pos, l.last
+//@   ensures scOK(l) && canBackup(l) && l.pos == old(l.pos)
+//@   ensures ghost(sent) == old(ghost(sent))
+
+//@ func (*Scanner).accept
+//@   prop C04
+//@   arith int
+//@   requires scOK(l)
+//@   modifies l.pos, l.last
+//@   ensures scOK(l) && canBackup(l) && l.pos.Offset >= old(l.pos.Offset)
+//@   ensures ghost(sent) == old(ghost(sent))
+
+//@ func (*Scanner).acceptRune
+//@   prop C04
+//@   arith int
+//@   requires scOK(l)
+//@   modifies l.pos, l.last
+//@   ensures scOK(l) && canBackup(l) && l.pos.Offset >= old(l.pos.Offset)
+//@   ensures ghost(sent) == old(ghost(sent))
+
+//@ func accept
+//@   prop C04
+//@   arith int
+//@   requires scOK(l) && p != nil
+//@   modifies all(l)
+//@   ensures scOK(l) && sameWin(l) && l.pos.Offset >= old(l.pos.Offset)
+//@   ensures ghost(sent) == old(ghost(sent))
+//@   loop 1: invariant scOK(l) && sameWin(l) && l.pos.Offset >= old(l.pos.Offset) && ghost(sent) == old(ghost(sent))
+
+// emit refuses the INVALID token type (a consistency panic: "emit bails out").
+//@ func (*Scanner).emit
+//@   prop C04
+//@   arith int
+//@   requires scOK(l)
+//@   modifies l.start
+//@   exits string when tp == 0
+//@   ensures scOK(l) && l.start == l.pos
+//@   ensures ghost(sent) == old(ghost(sent)) + 1
+
+//@ func (*Scanner).errorf
+//@   prop C04
+//@   arith int
+//@   requires scOK(l)
+//@   modifies l.errorMsg
+//@   ensures result0 == nil
+//@   ensures ghost(sent) == old(ghost(sent)) + 1
+
+// State functions: each keeps the window inside the input and sends at most
+// two tokens per invocation.  scanToken may raise emit's consistency panic
+// (the operator table lookup is not decided: maps are outside the model).
+//@ macro stateOK(l) = (scOK(l) && l.input == old(l.input) && ghost(sent) <= old(ghost(sent)) + 2)
+
+//@ func scanToken
+//@   prop C04
+//@   arith int
+//@   requires scOK(l)
+//@   modifies all(l)
+//@   exits string
+//@   ensures stateOK(l)
+
+//@ func scanComment
+//@   prop C04
+//@   arith int
+//@   requires scOK(l)
+//@   modifies all(l)
+//@   ensures stateOK(l)
+
+//@ func scanShortComment
+//@   prop C04
+//@   arith int
+//@   requires scOK(l)
+//@   modifies all(l)
+//@   ensures stateOK(l)
+//@   loop 1: invariant scOK(l) && l.input == old(l.input) && ghost(sent) == old(ghost(sent))
+
+//@ func scanLong$1
+//@   prop C04
+//@   arith int
+//@   requires scOK(l)
+//@   modifies all(l)
+//@   ensures stateOK(l)
+//@   loop 1: invariant scOK(l) && l.input == old(l.input) && ghost(sent) == old(ghost(sent))
+//@   loop 2: invariant scOK(l) && l.input == old(l.input) && ghost(sent) == old(ghost(sent))
+
+//@ func scanShortString$1
+//@   prop C04
+//@   arith int
+//@   requires scOK(l)
+//@   modifies all(l)
+//@   ensures stateOK(l)
+//@   loop 1: invariant scOK(l) && l.input == old(l.input) && ghost(sent) == old(ghost(sent))
+
+//@ func scanNumberPrefix
+//@   prop C04
+//@   arith int
+//@   requires scOK(l)
+//@   modifies all(l)
+//@   ensures stateOK(l)
+
+//@ func scanNumber
+//@   prop C04
+//@   arith int
+//@   requires scOK(l)
+//@   modifies all(l)
+//@   ensures stateOK(l)
+
+//@ func scanExp
+//@   prop C04
+//@   arith int
+//@   requires scOK(l) && tp != 0
+//@   modifies all(l)
+//@   ensures stateOK(l)
+
+//@ func scanIdent
+//@   prop C04
+//@   arith int
+//@   requires scOK(l)
+//@   modifies all(l)
+//@   ensures stateOK(l)
+
+// The two state constructors only build a closure.
+//@ func scanShortString
+//@   prop C04
+//@   arith int
+//@   modifies nothing
+//@   ensures ghost(sent) == old(ghost(sent))
+
+//@ func scanLong
+//@   prop C04
+//@   arith int
+//@   modifies nothing
+//@   ensures ghost(sent) == old(ghost(sent))
